@@ -10,7 +10,6 @@
 (U2) harness.containers.runner replays each case into the REAL containers and
      spec/TraceContainers.tla judges every recorded result against the
      abstract models (clauses C20_*)."""
-import glob
 import json
 import os
 import random
@@ -42,7 +41,6 @@ RC_SAMPLE = {"quick": 1500, "thorough": 10 ** 9}      # thorough replays every s
 TIMEOUT = {"quick": 1200, "thorough": 3000}
 # traces per TLC validation JVM (memory: ~1 GB per 10 MB of traces)
 CASES_PER_SHARD = {"rc": 1000, "ct": 1500}
-FINDINGS = os.path.join(tlc.VERIF, "findings")
 MAX_REPORTED = 25          # replay files written / VIOLATION lines printed per run
 
 
@@ -54,20 +52,9 @@ def _workers(default: int) -> int:
 
 
 def load_open_findings(prop: str) -> Dict[str, dict]:
-    known = {k["id"]: k for k in core.load_known()
-             if k.get("status") == "open" and k.get("property") == prop}
-    closed = {k["id"] for k in core.load_known() if k.get("status") != "open"}
-    for path in sorted(glob.glob(os.path.join(FINDINGS, "*", "entry.json"))):
-        try:
-            with open(path) as f:
-                e = json.load(f)
-        except (OSError, ValueError):
-            continue
-        for k in (e if isinstance(e, list) else [e]):
-            if (k.get("property") == prop and k.get("status") == "open"
-                    and k["id"] not in closed):
-                known.setdefault(k["id"], k)
-    return known
+    """Open findings of the property; a fixed entry suppresses nothing."""
+    return {k["id"]: k for k in core.load_known()
+            if k.get("status") == "open" and prop in k.get("properties", [k["property"]])}
 
 
 def _generate(spec: str, cfg: str, tag: str, workers: int, wd: str, tier: str) -> dict:
@@ -138,6 +125,7 @@ def _replay_and_judge(cases: List[dict], wd: str, tag: str, jobs: int, tier: str
     with open(path, "w") as out:
         for c in cases:
             out.write(json.dumps(c, separators=(",", ":")) + "\n")
+    jobs = _workers(jobs)                 # VERIF_TLC_WORKERS also caps the parallel JVMs
     per = CASES_PER_SHARD.get(tag, 1000)
     nshards = max(jobs, -(-len(cases) // per))
     shards = core.split_file(path, nshards, wd, f"cases.{tag}")
@@ -187,12 +175,10 @@ def run(prop: str, tier: str, replay: str = None) -> int:
             def refcache_pipeline():
                 g = _generate("RefCache.tla", REFCACHE_CFG[tier], "rc", 16, wd, tier)
                 shallow, deep = [], []
-                excused = 0
                 with open(g["dest"]) as f:
                     for i, line in enumerate(f):
                         c = json.loads(line)
                         c["id"] = f"rc-{i}"
-                        excused += len(c.pop("kf", []))
                         (shallow if c["d"] <= RC_ALL_DEPTH[tier] else deep).append(c)
                 n_deep = len(deep)
                 # TLC's workers emit in no fixed order: sort before the seeded sample
@@ -202,13 +188,13 @@ def run(prop: str, tier: str, replay: str = None) -> int:
                 cases = shallow + deep
                 rng.shuffle(cases)
                 out, n_self = _replay_and_judge(cases, wd, "rc", 16, tier, selftest=True)
-                return g, cases, out, excused, len(shallow), n_deep, len(deep), n_self
+                return g, cases, out, len(shallow), n_deep, len(deep), n_self
 
             with ThreadPoolExecutor(max_workers=2) as ex:
                 f_ct = ex.submit(containers_pipeline)
                 f_rc = ex.submit(refcache_pipeline)
                 gens, ct_cases, ct_verdicts, self_ct = f_ct.result()
-                (g_rc, rc_cases, rc_verdicts, excused, n_shallow, n_deep, n_deep_used,
+                (g_rc, rc_cases, rc_verdicts, n_shallow, n_deep, n_deep_used,
                  self_rc) = f_rc.result()
             rep.extra["binding_selftest_corrupted_traces_rejected"] = self_ct + self_rc
             for g in gens + [g_rc]:
@@ -223,7 +209,6 @@ def run(prop: str, tier: str, replay: str = None) -> int:
                 "states_emitted": g_rc["emitted"],
                 "replayed_all_up_to_depth": RC_ALL_DEPTH[tier], "replayed_shallow": n_shallow,
                 "deeper_states": n_deep, "deeper_states_replayed_sample": n_deep_used}
-            rep.extra["model_transitions_excused_by_open_findings"] = {"KF-C20-1": excused}
         judge(rep, prop, verdicts, case_by_id)
         rep.exhaustive = not sampled and not replay
         rep.rule = (
